@@ -125,6 +125,9 @@ func escape(s string, m map[rune]string) string {
 			v = append(v, `\`+string(c))
 		default:
 			var s string
+
+			key := c
+
 			if IsControl(c) {
 				s += `\C-`
 				c = Decontrol(c)
@@ -135,10 +138,13 @@ func escape(s string, m map[rune]string) string {
 				c = Demeta(c)
 			}
 
-			if unicode.IsPrint(c) {
+			// Keys that are not printable even without their modifiers, or
+			// that would need to be escaped themselves (which makes sequences
+			// like \C-\M- ambiguous), are written as plain hexadecimal codes.
+			if unicode.IsPrint(c) && c != '\\' && c != '"' && c != '\'' {
 				s += string(c)
 			} else {
-				s += fmt.Sprintf(`\x%2x`, c)
+				s = fmt.Sprintf(`\x%02x`, key)
 			}
 
 			v = append(v, s)
